@@ -409,6 +409,10 @@ fn main() {
             "fixed:repeated-conversion-different-types".into(),
             b"grammar;\nextern { type Location = usize; enum Tok { \"x\" => Tok::X(<u32>), \"x\" => Tok::Y(<String>), } }\npub S: () = { \"x\" => () };\n".to_vec(),
         ));
+        inputs.push((
+            "fixed:empty-alternative-multiple-angle".into(),
+            b"grammar;\npub A: String = => foo(<>, <>);\n".to_vec(),
+        ));
         for (name, t) in &seeds {
             let _ = name;
             inputs.push(("seed-unchanged".into(), t.clone().into_bytes()));
